@@ -1,3 +1,64 @@
-//! Validation of the oracle and the container models against the repository's own test inputs
-//! (translator validation): perft counts through spec-legal filtering, engine vs spec.
-pub fn run() -> i32 { 0 }
+//! Validation of the oracle and of the harness plumbing against the repository's own test inputs
+//! (translator validation a la Serval): for the six perft positions of src/move_gen.rs's tests, to
+//! depth 2, the rules model spec.rs must agree with the real engine (real Vec, real magic tables) on
+//! the SET of legal moves of every node, on the successor of every move, on the check test and on
+//! validity - and the node counts must be the ones the repository's perft tests assert for depth 1/2.
+use crate::board::Board;
+use crate::common::{mt_of, piece_of};
+use crate::move_gen::MoveGenerator;
+use crate::moves::Move;
+use crate::spec::*;
+
+const FENS: [(&str, usize, usize); 6] = [
+    ("rnbqkbnr/pppppppp/8/8/8/8/PPPPPPPP/RNBQKBNR w KQkq - 0 1", 20, 400),
+    ("r3k2r/p1ppqpb1/bn2pnp1/3PN3/1p2P3/2N2Q1p/PPPBBPPP/R3K2R w KQkq - 0 1", 48, 2039),
+    ("8/2p5/3p4/KP5r/1R3p1k/8/4P1P1/8 w - - 0 1", 14, 191),
+    ("r3k2r/Pppp1ppp/1b3nbN/nP6/BBP1P3/q4N2/Pp1P2PP/R2Q1RK1 w kq - 0 1", 6, 264),
+    ("rnbq1k1r/pp1Pbppp/2p5/8/2B5/8/PPP1NnPP/RNBQK2R w KQ - 1 8", 44, 1486),
+    ("r4rk1/1pp1qppp/p1np1n2/2b1p1B1/2B1P1b1/P1NP1N2/1PP1QPPP/R4RK1 w - - 0 10", 46, 2079),
+];
+fn spec_moves(p: &Pos) -> Vec<Move> {
+    let mut v = Vec::new();
+    for from in 0..64u8 {
+        let pc = piece_at(p, from);
+        if pc == 6 { continue; }
+        for to in 0..64u8 { for mt in 0..5u8 {
+            if mt == 4 { for pr in 1..5u8 { let m = Move::new(from, to, piece_of(pr), mt_of(mt)); if legal(p, &m) { v.push(m); } } }
+            else { let m = Move::new(from, to, piece_of(pc as u8), mt_of(mt)); if legal(p, &m) { v.push(m); } }
+        } }
+    }
+    v
+}
+fn key(m: &Move) -> (u8, u8, usize, u8) { (m.from, m.to, pidx(m.piece_type), match m.move_type { crate::moves::MoveType::Quiet => 0, crate::moves::MoveType::Capture => 1, crate::moves::MoveType::EnPassant => 2, crate::moves::MoveType::Castle => 3, crate::moves::MoveType::Promotion => 4 }) }
+fn walk(mg: &MoveGenerator, b: &Board, depth: usize, errs: &mut Vec<String>) -> usize {
+    let p = from_board(b);
+    if !valid(&p) { errs.push(format!("spec::valid rejects a position reached by the engine: {}", crate::common::fen_of(&p))); }
+    if mg.is_in_check(b) != in_check(&p, p.stm) { errs.push(format!("check test differs: {}", crate::common::fen_of(&p))); }
+    let mut e: Vec<_> = mg.generate_moves(b).iter().map(key).collect();
+    let mut s: Vec<_> = spec_moves(&p).iter().map(key).collect();
+    e.sort(); s.sort();
+    if e != s { errs.push(format!("legal move sets differ at {}: engine {} spec {}", crate::common::fen_of(&p), e.len(), s.len())); }
+    if depth == 0 { return 1; }
+    let mut n = 0;
+    for m in mg.generate_moves(b).iter() {
+        let nb = b.clone_with_move(m);
+        let want = apply(&p, m);
+        if from_board(&nb) != want { errs.push(format!("successor differs after {:?} at {}", key(m), crate::common::fen_of(&p))); }
+        n += if depth == 1 { 1 } else { walk(mg, &nb, depth - 1, errs) };
+    }
+    n
+}
+pub fn run() -> i32 {
+    let mg = MoveGenerator::new();
+    let mut errs = Vec::new();
+    let mut nodes = 0;
+    for (fen, d1, d2) in FENS.iter() {
+        let b = Board::new(fen);
+        let n1 = walk(&mg, &b, 1, &mut errs);
+        let n2 = walk(&mg, &b, 2, &mut errs);
+        if n1 != *d1 || n2 != *d2 { errs.push(format!("perft counts {} {} differ from the repository's {} {} for {}", n1, n2, d1, d2, fen)); }
+        nodes += n2;
+    }
+    if errs.is_empty() { println!("selftest ok: rules model == engine on {} positions of the six perft trees (move sets, successors, check test, validity)", nodes + 6); 0 }
+    else { for e in errs.iter().take(10) { println!("selftest FAIL: {}", e); } 1 }
+}
